@@ -19,6 +19,62 @@ PS = "mimium_lang::ast::program::ProgramStatement"
 RESOLVER_MOD = "::mirgen::convert_qualified_names::"
 
 
+# ---- the resolver's scope machinery by role (private names are free to change) -------------------------------------
+_RR = {}
+
+
+def resolver_roles(facts):
+    """stack: `<Struct>::<field>` of the scope stack (the Vec<HashSet<Symbol>> field of the resolver's context struct);
+    openers / closers: methods of that struct that push / pop it and take nothing but self; binders: methods that call an
+    opener and insert into the stack (they open the scope that holds a binder); predicates: bool methods that only read
+    it"""
+    key = id(facts)
+    if key in _RR:
+        return _RR[key]
+    lang = facts.crate(roles.LANG)
+    stack, struct = None, None
+    for pth, a in lang.adts.items():
+        if RESOLVER_MOD not in pth and RESOLVER_MOD.strip(":") not in pth:
+            continue
+        for v in a["variants"]:
+            for fname, fty in v["f"]:
+                if fty.startswith("std::vec::Vec<") and "HashSet<" in fty and "Symbol" in fty:
+                    stack, struct = "%s::%s" % (pth.split("::")[-1], fname), pth.split("::")[-1]
+    out = {"stack": stack, "struct": struct, "openers": set(), "closers": set(), "binders": set(), "predicates": set(), "inserters": set()}
+    if stack:
+        meths = [f for f in lang.fns if RESOLVER_MOD in f.path and f.kind == "assoc" and struct in (f.d.get("self_ty") or "")]
+        for f in meths:
+            fam = facts.family(roles.LANG, f.root)
+            touches = any(field_touch(g, stack) for g in fam)
+            names = [(callee(t) or "") for g in fam for _, t in g.calls()]
+            shorts = [n.split("::")[-1] for n in names]
+            if touches and f.d.get("argc") == 1 and any(n.endswith("::push") and "Vec" in n for n in names) and "pop" not in shorts:
+                out["openers"].add(f.path)
+            elif touches and f.d.get("argc") == 1 and any(n.endswith("::pop") and "Vec" in n for n in names):
+                out["closers"].add(f.path)
+            elif touches and any(n.endswith("::insert") and "HashSet" in n for n in names):
+                out["inserters"].add(f.path)
+            elif touches and "bool" == (f.d.get("locals") or [""])[0]:
+                out["predicates"].add(f.path)
+        # binders: whatever puts names into the innermost scope — methods that reach into the top of the stack
+        # (`last_mut`), and the resolver's helpers that call those for a pattern
+        for f in meths:
+            fam = facts.family(roles.LANG, f.root)
+            if f.path in out["openers"] | out["closers"] | out["predicates"]:
+                continue
+            if any(field_touch(g, stack) for g in fam) and any((callee(t) or "").split("::")[-1] in ("last_mut", "insert") for g in fam for _, t in g.calls()):
+                out["binders"].add(f.path)
+        for f in lang.fns:
+            if RESOLVER_MOD in f.path and f.kind == "fn" and "::test" not in f.path and f.path not in out["binders"]:
+                names = {(callee(t) or "") for g in facts.family(roles.LANG, f.root) for _, t in g.calls()}
+                # a helper whose only resolver calls are binders (it binds the names of a pattern)
+                mine = {c for c in names if RESOLVER_MOD in c}
+                if (mine & out["binders"]) and mine <= (out["binders"] | {f.path}):
+                    out["binders"].add(f.path)
+    _RR[key] = out
+    return out
+
+
 def field_touch(fn, field_suffix):
     """blocks in which fn reads/borrows a place whose projection ends in a field named *field_suffix"""
     out = []
@@ -171,14 +227,18 @@ def rule_routes(ck, facts):
 def rule_scope(ck, facts, R="C17.scope"):
     ck.rule(R, "the resolver's scope stack (ResolveContext.local_bindings) is read/written only inside ResolveContext's own methods, and push_scope/pop_scope calls are balanced on every path of every resolver function")
     lang = facts.crate(roles.LANG)
+    RR = resolver_roles(facts)
+    ck.require(R, bool(RR["stack"]) and bool(RR["openers"]) and bool(RR["closers"]), "anchor|scope-stack", "the resolver's scope stack (a Vec<HashSet<Symbol>> field with methods that push and pop it) was not found")
+    if not (RR["stack"] and RR["openers"] and RR["closers"]):
+        return
     fns = [f for f in lang.fns if RESOLVER_MOD in f.path and "::tests" not in f.path and f.kind != "promoted"]
     n = 0
     for f in fns:
-        t = field_touch(f, "ResolveContext::local_bindings")
+        t = field_touch(f, RR["stack"])
         if not t:
             continue
         root = facts.fn(f.root) or f
-        is_method = "ResolveContext" in (root.d.get("self_ty") or "")
+        is_method = RR["struct"] in (root.d.get("self_ty") or "")
         n += 1
         if is_method:
             ck.ok(R, "owner|%s" % root.short)
@@ -188,8 +248,8 @@ def rule_scope(ck, facts, R="C17.scope"):
     # balance
     m = 0
     for f in fns:
-        names = [(callee(t) or "").split("::")[-1] for _, t in f.calls()]
-        if "push_scope" not in names and "pop_scope" not in names:
+        names = {(callee(t) or "") for _, t in f.calls()}
+        if not (names & RR["openers"]) and not (names & RR["closers"]):
             continue
         m += 1
         sx = SymEx(f, max_paths=800, max_steps=60000, facts=facts)
@@ -216,10 +276,9 @@ def rule_scope(ck, facts, R="C17.scope"):
             net = 0
             for e in p.events:
                 if e[0] == "call":
-                    nm = e[1].split("::")[-1]
-                    if nm == "push_scope":
+                    if e[1] in RR["openers"]:
                         net += 1
-                    elif nm == "pop_scope":
+                    elif e[1] in RR["closers"]:
                         net -= 1
                         if net < 0:
                             bad = "pops a scope it did not push"
@@ -237,7 +296,7 @@ def rule_scope(ck, facts, R="C17.scope"):
                 except PathLimit:
                     cyc = []
                 for p in cyc:
-                    net = sum(1 if e[1].split("::")[-1] == "push_scope" else -1 if e[1].split("::")[-1] == "pop_scope" else 0 for e in p.events if e[0] == "call")
+                    net = sum(1 if e[1] in RR["openers"] else -1 if e[1] in RR["closers"] else 0 for e in p.events if e[0] == "call")
                     if net != 0:
                         bad = "loop iteration changes the scope depth by %+d" % net
         if bad:
@@ -336,12 +395,48 @@ def rule_hierarchy_predicate(ck, facts):
             ck.bad(R, key, "%s decides 'same module hierarchy' without constraining the lengths of the two paths (element-wise comparison stops at the shorter one): code in an enclosing module is treated as being inside its nested modules and may read their private members" % f.short, f.where())
 
 
+def rule_lexical_first(ck, facts, R="C17.routes"):
+    """a name bound in an enclosing lexical scope refers to that binding, whatever the modules export"""
+    lang = facts.crate(roles.LANG)
+    RR = resolver_roles(facts)
+    from ..cfg import dominators
+
+    n = 0
+    for f in lang.fns:
+        if RESOLVER_MOD not in f.path or f.kind == "promoted" or "::test" in f.path:
+            continue
+        tests = [b for b, t in f.calls() if (callee(t) or "") in RR["predicates"]]
+        if not tests:
+            continue
+        dom = dominators(f)
+        vars_ = [(b, st) for b, st in f.all_stmts() if st[KIND] == "a" and st[5][0] == "agg" and st[5][1][0] == "adt" and st[5][1][1] == roles.EXPR and st[5][1][3] == "Var"]
+        if not vars_:
+            continue
+        n += 1
+        early = [(b, st) for b, st in vars_ if not any(tb in dom.get(b, ()) for tb in tests)]
+        key = "lexical-first|%s" % f.short.split("::")[-1]
+        if early:
+            ck.bad(R, key, "%s can answer with a (module-qualified, aliased or imported) name before it has asked whether the name is bound in an enclosing lexical scope: a local binder whose name is also a member of the current module, an alias or an import no longer captures its own uses — renaming the binder changes what the program means" % f.short, f.where(early[0][1]))
+        else:
+            ck.ok(R, key, {"fn": f.short, "answers": len(vars_)})
+    ck.floor(R, "routes_with_lexical_test", n, 1)
+
+
 def rule_context_bracket(ck, facts, R="C17.context"):
     """the module context of a function definition applies to its body only"""
     ck.rule(R, "in the name resolver, the module context that a function definition installs (ResolveContext.current_module_context) is taken back before the continuation of the definition (the `then` part of LetRec) is resolved: a later top-level statement must not be resolved as if it were inside the preceding function's module; and the scope that holds the binder (opened by bind_*, closed by pop_scope) is still open when the continuation is resolved")
     lang = facts.crate(roles.LANG)
-    fs = [f for f in lang.fns if f.short.endswith("convert_qualified_names::convert_expr") and f.kind == "fn"]
-    ck.require(R, len(fs) == 1, "anchor|convert_expr", "resolver convert_expr not found")
+    RR = resolver_roles(facts)
+    # the resolver's walk over expressions: the function of the resolver module with the most Expr arms
+    cands = []
+    for g in lang.fns:
+        if RESOLVER_MOD in g.path and g.kind == "fn" and "::test" not in g.path:
+            cv = cover.coverage(facts, g, roles.EXPR)
+            scoped = any((callee(t) or "") in RR["closers"] for h in facts.family(roles.LANG, g.root) for _, t in h.calls())
+            if cv is not None and cv.primary is not None and len(cv.primary_handled()) >= 10 and "LetRec" in cv.primary_handled() and scoped:
+                cands.append((len(cv.primary_handled()), g))
+    fs = [max(cands, key=lambda x: x[0])[1]] if cands else []
+    ck.require(R, len(fs) == 1, "anchor|convert_expr", "the resolver's walk over expressions (a dispatch on Expr with a LetRec arm) was not found")
     if len(fs) != 1:
         return
     f = fs[0]
@@ -376,11 +471,10 @@ def rule_context_bracket(ck, facts, R="C17.context"):
             closed = False
             for e in p.events:
                 if e[0] == "call":
-                    nm = e[1].split("::")[-1]
-                    if "ResolveContext" in e[1] and nm.startswith("bind_"):
+                    if e[1] in RR["binders"]:
                         bound = True
                         closed = False
-                    elif "ResolveContext" in e[1] and nm == "pop_scope" and bound:
+                    elif e[1] in RR["closers"] and bound:
                         closed = True
                     elif any(a == ("pay", v, cont) for a in e[2]) and bound:
                         scope_seen = True
@@ -418,8 +512,8 @@ def rule_context_bracket(ck, facts, R="C17.context"):
     for g in facts.family(roles.LANG, f.root):
         if g.path == f.path or g.kind == "promoted":
             continue
-        names = [(callee(t) or "") for _, t in g.calls()]
-        if not (any("ResolveContext" in c and c.split("::")[-1].startswith("bind_") for c in names) and any(c.endswith("ResolveContext::pop_scope") or c.split("::")[-1] == "pop_scope" for c in names)):
+        names = {(callee(t) or "") for _, t in g.calls()}
+        if not (names & RR["binders"] and names & RR["closers"]):
             continue
         sx = SymEx(g, max_paths=64, max_steps=6000, facts=facts)
         try:
@@ -435,10 +529,9 @@ def rule_context_bracket(ck, facts, R="C17.context"):
             for e in p.events:
                 if e[0] != "call":
                     continue
-                nm = e[1].split("::")[-1]
-                if "ResolveContext" in e[1] and nm.startswith("bind_"):
+                if e[1] in RR["binders"]:
                     bound, closed = True, False
-                elif nm == "pop_scope" and bound:
+                elif e[1] in RR["closers"] and bound:
                     closed = True
                 elif e[1] == f.path and bound:
                     seen = True
@@ -460,5 +553,6 @@ def run(ck, facts, tier):
     rule_register(ck, facts)
     rule_routes(ck, facts)
     rule_scope(ck, facts)
+    rule_lexical_first(ck, facts)
     rule_context_bracket(ck, facts)
     ck.not_decided("that every accepted reference resolves to the unique definition its path denotes, for concrete module trees")
